@@ -310,6 +310,21 @@ class ReachingDefsAnalysis:
 _DefCtx: TypeAlias = dict[NamedId, int]
 """visitor context: mapping from variable name to definition index"""
 
+def _always_returns(block: StmtBlock) -> bool:
+    """Whether control never leaves `block` through its end."""
+    if not block.stmts:
+        return False
+    match block.stmts[-1]:
+        case ReturnStmt():
+            return True
+        case IfStmt(ift=ift, iff=iff):
+            return _always_returns(ift) and _always_returns(iff)
+        case ContextStmt(body=body):
+            return _always_returns(body)
+        case _:
+            return False
+
+
 class _ReachingDefs(DefaultVisitor):
     """Visitor for reaching definitions analysis."""
 
@@ -424,6 +439,13 @@ class _ReachingDefs(DefaultVisitor):
         # visit both true and false branches
         ift_out = self._visit_block(stmt.ift, ctx)
         iff_out = self._visit_block(stmt.iff, ctx)
+        # a branch that always returns reaches nothing after the statement:
+        # what follows sees exactly the definitions of the other branch
+        ift_returns = _always_returns(stmt.ift)
+        iff_returns = _always_returns(stmt.iff)
+        if ift_returns != iff_returns:
+            self.phis[stmt] = {}
+            return iff_out if ift_returns else ift_out
         # introduce phi nodes for:
         # (i) redefinitions in the branches
         # (ii) introductions in both branches
